@@ -10,6 +10,8 @@ rsync -a --exclude .git /repo/ "$D/"
 cd "$D"
 for p in "$@"; do patch -p1 -s < "$p"; done
 grep -rlI --include='*_test' 'LD_LIBRARY_PATH="/repo/.libs' . 2>/dev/null | xargs -r sed -i "s#LD_LIBRARY_PATH=\"/repo/.libs#LD_LIBRARY_PATH=\"$D/.libs#"
+# nasm include files are not tracked by the Makefile's dependencies: force reassembly of every unit
+find . -name '*.asm' -not -path './.git/*' | xargs touch
 make -j16 check > "$D/log.txt" 2>&1 || { grep -E "^(FAIL|ERROR|PASS):" "$D/log.txt" | sort | uniq -c | sort -rn | head -20; tail -15 "$D/log.txt"; echo SUITE-FAILED; exit 1; }
 # prove the tests ran against the copy's library
 if ! grep -q "$D/.libs" crc/crc16_t10dif_test; then echo "wrapper not re-pointed"; exit 2; fi
